@@ -431,8 +431,17 @@ func drawURL(t *core.Tape, s *world.SchemaSpec) *urlSpec {
 	// other page parameters are legal too (the parser keeps them), also with
 	// reserved characters in their name
 	if t.Bool(1, 6) {
-		k, _ := spice(t, []string{"cursor", "after", "k"}[t.Draw(3)])
+		k, _ := spice(t, []string{"cursor", "after", "k", "before"}[t.Draw(4)])
 		u.params = append(u.params, param{name: "page[" + k + "]", value: fmt.Sprint(t.Draw(9))})
+		u.flags["extra-page-parameter"] = true
+	}
+
+	// the other common pagination vocabulary, both keys together (whatever a parser
+	// makes of them, it must not depend on the order it meets them in)
+	if t.Bool(1, 8) {
+		limit := []int{1, 2, 5, 10}[t.Draw(4)]
+		u.params = append(u.params, param{name: "page[limit]", value: fmt.Sprint(limit)})
+		u.params = append(u.params, param{name: "page[offset]", value: fmt.Sprint(limit * t.Draw(5))})
 		u.flags["extra-page-parameter"] = true
 	}
 
